@@ -291,7 +291,7 @@ class EFloatFormat(EncodableFormat):
                 case EFloatNanKind.MAX_VAL:
                     if self.pmax == 1:
                         ebits = bitmask(self.es) - 1
-                        mbits = 1
+                        mbits = 0
                     else:
                         ebits = bitmask(self.es)
                         mbits = bitmask(self.m) - 1
